@@ -42,7 +42,11 @@ def case(draw, maxn=5):
         g = draw(geometry_spec(simple_lines=True, allow_degenerate=False, frame=frame, small=True))
         cluster = draw(st.sampled_from([0, 0, 0, 1, 2]))
         if cluster:
-            g = {"type": g["type"], "coordinates": shift_spec_time(g["type"], g["coordinates"], ts * 16.0 * cluster), "meta": g["meta"]}
+            shifted = shift_spec_time(g["type"], g["coordinates"], ts * 16.0 * cluster)
+            # free-float times closer than one ulp of the shifted values merge under the shift: such a line stays where it is
+            lines = [shifted] if g["type"] == "LineString" else (shifted if g["type"] == "MultiLineString" else [])
+            if all(a[0] < b[0] for ln in lines for a, b in zip(ln, ln[1:])):
+                g = {"type": g["type"], "coordinates": shifted, "meta": g["meta"]}
         pool.append(g)
     src = draw(st.lists(st.integers(0, npool - 1), min_size=n, max_size=n))
     tgt = draw(st.lists(st.integers(0, npool - 1), min_size=m, max_size=m))
